@@ -70,8 +70,27 @@ func (c *histCheck) RunCase(w *core.Worker, idx int, seed uint64, res *core.Case
 	rng := core.NewRng(seed)
 	poolName := histPools[idx%len(histPools)]
 	c.h.pool = poolFor(poolName)
+	// every 8th case: the production gNMI target and a gNMI device on loopback instead of the recording target
+	c.h.gnmiWire = ""
+	if c.id == "C01" && idx%8 == 7 {
+		c.h.gnmiWire = []string{"proto", "json", "json_ietf"}[(idx/8)%3]
+		poolName += " gnmi-wire=" + c.h.gnmiWire
+	}
+	// every 16th case: intents with hundreds of entries
+	c.h.bulk = 0
+	if idx%16 == 15 {
+		c.h.bulk = 150
+		poolName += " bulk"
+		res.Count("bulk_cases", 1)
+	}
 	run := c.h.start(rng, res, true, false)
 	defer run.close()
+	if c.h.gnmiWire != "" {
+		if run.gdev == nil {
+			return
+		}
+		res.Count("gnmi_wire_cases:"+c.h.gnmiWire, 1)
+	}
 	res.Tracef("pool=%s", poolName)
 	steps := c.steps(w.Tier)
 	contested, shadowChanged := false, false
@@ -114,6 +133,14 @@ func (c *histCheck) RunCase(w *core.Worker, idx int, seed uint64, res *core.Case
 		case "C01":
 			run.checkDevice(tag, out.rsp)
 			res.Count("device_leaves_checked", len(afterW))
+			if run.gdev != nil {
+				res.Count("gnmi_set_requests_received", run.gdev.NumSets())
+				for _, st := range run.gdev.SetsSince(0) {
+					if st.DecodeErr != "" {
+						res.Violate("C01/gnmi-wire/request-not-understood", "%s: the device cannot interpret the SetRequest: %s\n  %s", tag, st.DecodeErr, fixture.DescribeSet(st.Req))
+					}
+				}
+			}
 		case "C02":
 			run.checkIntended(tag)
 		}
